@@ -384,6 +384,29 @@ func c05Universe() []string {
 			add("<a href=\"" + cp.B + "\">")
 		}
 	}
+	// inputs on which two or more of the five parsing passes report SQLi with different fingerprints:
+	// the reported fingerprint then depends on the order in which the passes are tried, so an order
+	// that is not fixed (map iteration, select, goroutine completion) shows as a changing answer
+	multi := 0
+	parts := []string{"' or 1=1 -- ", "\" or \"a\"=\"a", "' union select 1 -- ", "\" union select 1,2 #", "1 or 1=1", "' or ''='", "\" or 1 like 1 --", "') or ('a'='a", "\") or (\"a\"=\"a", "1; drop table t", "' and sleep(1) #", "\" and 1 in (1) --"}
+	for _, a := range parts {
+		for _, b := range parts {
+			if multi >= 60 {
+				break
+			}
+			in := a + " " + b
+			fps := map[string]bool{}
+			for _, m := range passModes {
+				if _, fp, _, verdict, _ := lib.VFingerprint(in, m); verdict {
+					fps[fp] = true
+				}
+			}
+			if len(fps) >= 2 {
+				add(in)
+				multi++
+			}
+		}
+	}
 	for _, f := range gen.FragSQL {
 		add("1 " + f + " 1")
 	}
